@@ -139,3 +139,46 @@ def _mk_akai_tg(nloops):
 
 for _k in (0, 1, 2):
     _mk_akai_tg(_k)
+
+
+# ================================================================================================== C02 / C20: one sample entry
+# SampleEntryAdapter._decode_element: which cluster chain a sample reads (the directory record's first cluster, minus the
+# parameter record's leading-cluster count) and which stored values it carries on.
+@contract("smpl_extract.roland.s7xx.fat:RolandFileAllocationTable.get_file#tag", abstract=True,
+          note="records its arguments; get_file itself is under contract above")
+def _gf_tag(c):
+    c.param("index", "int")
+    c.param("cluster_offset", "int")
+    c.returns(("rec", "FileTag", {"entry": "int", "skipped": "int"}))
+    c.ensures("result.entry == index and result.skipped == cluster_offset")
+    c.modifies()
+
+
+_LP = ("rec", "SampleParamLoopPoint", {"fine": "int", "address": "int"})
+_PARAM = ("obj", "smpl_extract.roland.s7xx.sample_entry:SampleParamEntryContainer",
+          {"sustain_loop_enable": "int", "sustain_loop_tune": "int", "release_loop_tune": "int", "original_key": ("obj", "NoteToken", {}),
+           "loop_mode": "int", "start_sample": _LP, "sustain_loop_start": _LP, "sustain_loop_end": _LP, "release_loop_start": _LP, "release_loop_end": _LP,
+           "name": "str", "index": "int", "cluster_top": "int", "num_clusters": "int",
+           "sample_options": ("obj", "smpl_extract.roland.s7xx.sample_entry:SampleParamOptionsSection", {"sample_mode": "int", "sampling_frequency": "int"})})
+
+
+@contract("smpl_extract.roland.s7xx.sample_entry:SampleEntryAdapter._decode_element", props=["C02", "C20"])
+def _sde(c):
+    c.self_obj(("self", "smpl_extract.roland.s7xx.sample_entry:SampleEntryAdapter", {}))
+    c.param("obj", ("rec", "SampleEntryContainer", {"index": "int", "directory": ("rec", "DirectoryEntryContainer", {"name": "str", "fat_entry": "int"}),
+                                                    "parameter": _PARAM}))
+    c.param("child_info", ("rec", "ChildInfo", {"parent": ("obj", "ParentToken", {}), "parent_path": ("clist", ["str"]), "routines": ("drop",), "name": ("drop",)}))
+    c.param("context", ("cdict", {"_": ("cdict", {"fat": ("obj", "smpl_extract.roland.s7xx.fat:RolandFileAllocationTable", {})})}))
+    c.param("path", "str")
+    c.use = {"smpl_extract.roland.s7xx.fat:RolandFileAllocationTable.get_file": "smpl_extract.roland.s7xx.fat:RolandFileAllocationTable.get_file#tag"}
+    c.raises("FatNotPresent", "False")
+    c.ensures("result._data_stream.entry == obj.directory.fat_entry and result._data_stream.skipped == obj.parameter.cluster_top",
+              "reads-the-chain-of-its-first-cluster-after-its-leading-cluster-count")
+    c.ensures("result.directory_name == obj.directory.name and result.parameter_name == obj.parameter.name and result.index == obj.index", "names-and-index")
+    c.ensures("result.sampling_frequency == obj.parameter.sample_options.sampling_frequency and result.sample_mode == obj.parameter.sample_options.sample_mode "
+              "and result.loop_mode == obj.parameter.loop_mode", "mode-frequency-loop-mode-as-stored")
+    for lp in ("start_sample", "sustain_loop_start", "sustain_loop_end", "release_loop_start", "release_loop_end"):
+        c.ensures(f"result.{lp}.fine == obj.parameter.{lp}.fine and result.{lp}.address == obj.parameter.{lp}.address", f"{lp}-as-stored")
+    c.ensures("len(result._path) == 2 and result._path[0] == child_info.parent_path[0] and result._path[1] == obj.directory.name and result._parent is child_info.parent",
+              "placed-under-its-parent")
+    c.modifies()
